@@ -131,7 +131,7 @@ Definition ref_trle (ch : Z -> Z) (f : pixfmt) (w h : Z) (tgt : list (list Z)) :
   toks (tiles_rows ch 0 f true 16 (Z.to_nat (h / 16 + 1)) 0 w h tgt 0 []).
 
 Definition ref_zrle (ch : Z -> Z) (f : pixfmt) (fresh : bool) (w h : Z) (tgt : list (list Z)) : list tok :=
-  [TZ 0 fresh true (tiles_rows ch 0 f false 64 (Z.to_nat (h / 64 + 1)) 0 w h tgt 0 [])].
+  [TZ 5 fresh true (tiles_rows ch 0 f false 64 (Z.to_nat (h / 64 + 1)) 0 w h tgt 0 [])].   (* ZRLE's own deflate stream (RFC 6143 7.7.6), not the Zlib encoding's stream 0 *)
 
 (* ---------------------------------------------------------------- Zlib, Ultra *)
 Definition ref_zlib (f : pixfmt) (fresh : bool) (tgt : list (list Z)) : list tok :=
